@@ -18,8 +18,12 @@ regenerated from the repository source on every run; helper lemmas: `Spl/Lemmas.
 * `mint_view_agree`, `token_view_agree` — for ALL byte images: the reference unpacker accepts ⇒ the
   framework's zero-copy view accepts, with identical field values. (`view_converse_witness`: the converse
   does not hold — not part of the property.)
-* `validate_mint_agree`, `validate_token_agree` — for ALL images the reference accepts and ALL validation
-  arguments, the framework's `validate_mint` / `validate_token` result is the predicate on the reference fields.
+* `data_flag_exact`, `mint_view_agree_flags`, `token_view_agree_flags` — what the runtime writable flag of the
+  `AccountInfo` does (`data()` re-runs `validate()` iff writable), and the view theorems for every access path
+  (`data_unchecked`, `data`, account set + `data`) and both flag values.
+* `validate_mint_agree`, `validate_token_agree`, `init_*_if_needed_agree` — for ALL images the reference accepts,
+  ALL validation arguments and both flag values, `validate_mint` / `validate_token` (alone, as validation id, and
+  through `init_account::<IF_NEEDED>`) give the predicate on the reference fields.
 * `ata_agree` — the helper hashes the same seed list under the same program as the reference derivation.
 -/
 namespace Spl.C16
@@ -151,21 +155,71 @@ example : ∃ t, refUnpackAccount (List.replicate 32 1 ++ List.replicate 32 2 ++
     ++ [7, 0, 0, 0, 0, 0, 0, 0] ++ [1, 0, 0, 0] ++ List.replicate 32 4) = .ok t
     ∧ t.state = 2 ∧ t.isNative = some 6 ∧ t.delegatedAmount = 7 := ⟨_, rfl, rfl, rfl, rfl⟩
 
-/-- For ALL byte images the reference `Mint::unpack` accepts and ALL `ValidateMint` arguments (expected
-decimals / mint authority / freeze authority `Any | None | Some`): `validate()?; validate_mint(arg)` on the
-zero-copy data (raw `PodOption` cells: derived `PartialEq` against `PodOption::some(k)`, `is_some()`)
-gives exactly the result of the same predicate on the reference-unpacked fields — in particular for images
-whose option tag is `NONE` over stale non-zero payload bytes (the SPL program clears only the tag). -/
-theorem validate_mint_agree (b : List Nat) (m : Mint) (a : ValidateMintArg) (h : refUnpackMint b = .ok m) :
-    fwValidateMint true b a = refValidateMint m a := by
+/-- What the runtime `is_writable` flag of the `AccountInfo` does to the zero-copy read, exactly:
+`data()` on a WRITABLE info is `validate()` (owner, `len == LEN`, checked cast, initialized) followed by the
+fields; on a READ-ONLY info it is the bare checked cast (`data_unchecked()`: no owner, length-constant or
+initialized test); and whatever `validate()` accepts, `data()` returns with the same fields for EITHER flag
+value. (The signer flag is not read on any of these paths.) -/
+theorem data_flag_exact (fields : List (SName × STy)) (len : Nat) (init : List (SName × SVal) → Bool)
+    (o : Bool) (b : List Nat) :
+    fwDataView fields len init true o b = fwView fields len init o b
+      ∧ fwDataView fields len init false o b = fwUnchecked fields b
+      ∧ ∀ vs, fwView fields len init o b = .ok vs → ∀ w, fwDataView fields len init w o b = .ok vs
+          ∧ fwSetView fields len init w o b = .ok vs :=
+  ⟨fwDataView_writable .., fwDataView_readonly .., fun vs h w =>
+    ⟨fwDataView_of_view h w, by simp [fwSetView, h, fwDataView_of_view h w]⟩⟩
+
+/-- `mint_view_agree` for every access path and BOTH values of the writable flag: if the reference accepts, then
+`data_unchecked()`, `data()` and account-set validation + `data()` all accept with the reference's fields. -/
+theorem mint_view_agree_flags (b : List Nat) (m : Mint) (h : refUnpackMint b = .ok m) (w : Bool) :
+    ∃ vs, viewMint vs = m ∧ fwMintUnchecked b = .ok vs ∧ fwMintData w true b = .ok vs
+      ∧ fwMintSet w true b = .ok vs := by
+  obtain ⟨vs, hv, hm⟩ := mint_view_agree b m h
+  have hx := (data_flag_exact Generated.mintFields Generated.mintLen mintInitialized true b).2.2 vs hv w
+  exact ⟨vs, hm, fwView_ok_unchecked hv, hx.1, hx.2⟩
+
+/-- …and for token accounts — in particular a FROZEN account behind a WRITABLE info (state 2 is accepted by
+`validate()`, so `data()` must return it). -/
+theorem token_view_agree_flags (b : List Nat) (t : TokenAcc) (h : refUnpackAccount b = .ok t) (w : Bool) :
+    ∃ vs, viewToken vs = t ∧ fwTokenUnchecked b = .ok vs ∧ fwTokenData w true b = .ok vs
+      ∧ fwTokenSet w true b = .ok vs := by
+  obtain ⟨vs, hv, ht⟩ := token_view_agree b t h
+  have hx := (data_flag_exact Generated.tokenFields Generated.tokenLen tokenInitialized true b).2.2 vs hv w
+  exact ⟨vs, ht, fwView_ok_unchecked hv, hx.1, hx.2⟩
+
+-- non-vacuity: the frozen, native 165-byte image behind a writable info
+set_option maxRecDepth 8192 in
+example : ∃ vs, fwTokenData true true (List.replicate 32 1 ++ List.replicate 32 2 ++ [5, 0, 0, 0, 0, 0, 0, 0]
+    ++ [1, 0, 0, 0] ++ List.replicate 32 3 ++ [2] ++ [1, 0, 0, 0] ++ [6, 0, 0, 0, 0, 0, 0, 0]
+    ++ [7, 0, 0, 0, 0, 0, 0, 0] ++ [1, 0, 0, 0] ++ List.replicate 32 4) = .ok vs ∧ (viewToken vs).state = 2 :=
+  ⟨_, rfl, rfl⟩
+
+/-- For ALL byte images the reference `Mint::unpack` accepts, ALL `ValidateMint` arguments (expected
+decimals / mint authority / freeze authority `Any | None | Some`) and BOTH values of the writable flag:
+`validate_mint(arg)` on its own, the `validate_mint` validation id (`validate()?; validate_mint(arg)`) and
+`init_account::<IF_NEEDED>` on the existing account give exactly the result of the same predicate on the
+reference-unpacked fields (raw `PodOption` cells: derived `PartialEq` against `PodOption::some(k)`,
+`is_some()`) — in particular for images whose option tag is `NONE` over stale non-zero payload bytes. -/
+theorem validate_mint_agree (b : List Nat) (m : Mint) (a : ValidateMintArg) (w : Bool)
+    (h : refUnpackMint b = .ok m) :
+    fwValidateMintDirect w true b a = refValidateMint m a ∧ fwValidateMint w true b a = refValidateMint m a := by
   obtain ⟨vs, hv, hm⟩ := mint_view_agree b m h
   obtain ⟨hl, hma, h45, hfa, hs, hd, hi⟩ := refUnpackMint_ok h
   have hdec : getNum vs .decimals = m.decimals := by rw [← hm]; rfl
   obtain ⟨c1, c2⟩ := mint_cells b
-  simp only [fwValidateMint, refValidateMint, hv, c1, c2, podEqSome_ref hma, podEqSome_ref hfa,
-    podIsSome_ref hfa, hdec]
-  rcases a with ⟨d, au, fr⟩
-  cases d <;> cases au <;> cases fr <;> simp [bne]
+  have hdata : fwMintData w true b = .ok vs := fwDataView_of_view hv w
+  have hdirect : fwValidateMintDirect w true b a = refValidateMint m a := by
+    simp only [fwValidateMintDirect, mintChecks, refValidateMint, hdata, c1, c2, podEqSome_ref hma,
+      podEqSome_ref hfa, podIsSome_ref hfa, hdec]
+    rcases a with ⟨d, au, fr⟩
+    cases d <;> cases au <;> cases fr <;> simp [bne]
+  exact ⟨hdirect, by simp only [fwValidateMint, hv, hdirect]⟩
+
+theorem init_mint_if_needed_agree (b : List Nat) (m : Mint) (w : Bool) (d : Nat) (au : Key) (fr : Option Key)
+    (h : refUnpackMint b = .ok m) :
+    fwInitMintIfNeeded w b d au fr
+      = refValidateMint m ⟨some d, some au, match fr with | none => .none | some k => .some k⟩ :=
+  (validate_mint_agree b m _ w h).2
 
 /-- non-vacuity (the red-team image): freeze authority cleared — tag `NONE`, 32 stale key bytes `8` — the
 reference reports `None`, and `FreezeAuthority::None` validates; expecting the stale key is rejected. -/
@@ -173,19 +227,29 @@ example :
     let b := [1, 0, 0, 0] ++ List.replicate 32 7 ++ [1, 2, 3, 4, 5, 6, 7, 8] ++ [9, 1] ++ [0, 0, 0, 0]
       ++ List.replicate 32 8
     (∃ m, refUnpackMint b = .ok m ∧ m.freezeAuthority = none)
-      ∧ fwValidateMint true b ⟨some 9, some (List.replicate 32 7), .none⟩ = .ok ()
-      ∧ fwValidateMint true b ⟨none, none, .some (List.replicate 32 8)⟩ = .error .invalidAccountData :=
+      ∧ fwValidateMint true true b ⟨some 9, some (List.replicate 32 7), .none⟩ = .ok ()
+      ∧ fwValidateMint false true b ⟨none, none, .some (List.replicate 32 8)⟩ = .error .invalidAccountData :=
   ⟨⟨_, rfl, rfl⟩, rfl, rfl⟩
 
-/-- For ALL byte images the reference `Account::unpack` accepts and ALL `ValidateToken` arguments:
-`validate()?; validate_token(arg)` = the same predicate (and error class: mint → `InvalidAccountData`, then
-owner → `IncorrectAuthority`) on the reference-unpacked fields. -/
-theorem validate_token_agree (b : List Nat) (t : TokenAcc) (a : ValidateTokenArg)
-    (h : refUnpackAccount b = .ok t) : fwValidateToken true b a = refValidateToken t a := by
+/-- For ALL byte images the reference `Account::unpack` accepts (Initialized AND Frozen), ALL `ValidateToken`
+arguments and BOTH values of the writable flag: `validate_token(arg)` on its own, the `validate_token` validation
+id and `init_account::<IF_NEEDED>` on the existing account = the same predicate (and error class: mint →
+`InvalidAccountData`, then owner → `IncorrectAuthority`) on the reference-unpacked fields. -/
+theorem validate_token_agree (b : List Nat) (t : TokenAcc) (a : ValidateTokenArg) (w : Bool)
+    (h : refUnpackAccount b = .ok t) :
+    fwValidateTokenDirect w true b a = refValidateToken t a ∧ fwValidateToken w true b a = refValidateToken t a := by
   obtain ⟨vs, hv, ht⟩ := token_view_agree b t h
   have hmint : getKey vs .mint = t.mint := by rw [← ht]; rfl
   have hown : getKey vs .owner = t.owner := by rw [← ht]; rfl
-  simp only [fwValidateToken, refValidateToken, hv, hmint, hown]
+  have hdata : fwTokenData w true b = .ok vs := fwDataView_of_view hv w
+  have hdirect : fwValidateTokenDirect w true b a = refValidateToken t a := by
+    simp only [fwValidateTokenDirect, tokenChecks, refValidateToken, hdata, hmint, hown]
+  exact ⟨hdirect, by simp only [fwValidateToken, hv, hdirect]⟩
+
+theorem init_token_if_needed_agree (b : List Nat) (t : TokenAcc) (w : Bool) (mint owner : Key)
+    (h : refUnpackAccount b = .ok t) :
+    fwInitTokenIfNeeded w b mint owner = refValidateToken t ⟨some mint, some owner⟩ :=
+  (validate_token_agree b t _ w h).2
 
 /-- The converse is not part of the property and does not hold: `PodOption` is `Pod`, so the view accepts
 an image whose option tag is neither `NONE` nor `SOME` (here `[2,0,0,0]`), which `Mint::unpack` rejects;
